@@ -126,8 +126,31 @@ pub fn history_strategy(max_ops: usize, big: bool) -> BoxedStrategy<History> {
         1 => Just(1 << 20),
         1 => Just(3 * (1 << 20) + 1),
     ];
-    (min_len, prop::collection::vec(op_strategy(big), 0..=max_ops))
-        .prop_map(|(min_len, ops)| History { min_len, ops })
+    // 1 history in 10 starts from a hole geometry the random ops rarely build: 5..8 one-page regions side by side,
+    // all flushed, then 2..5 of them removed one by one with a flush after each (so that freed extents are promoted
+    // next to holes that already exist, in every order), before the random part allocates into those holes
+    let prologue = (0u8..10, 5usize..=8, prop::collection::vec(any::<u16>(), 2..=5), any::<u8>()).prop_map(|(sel, n, removes, pat)| {
+        let mut ops = vec![];
+        if sel == 0 {
+            for k in 0..n {
+                ops.push(Op::Create { name: k as u8 });
+            }
+            for k in 0..n {
+                ops.push(Op::Append { r: ((k * 65536 + 32768) / n) as u16, len: 10 + k as u32, pat });
+            }
+            ops.push(Op::Flush);
+            for r in removes {
+                ops.push(Op::Remove { r });
+                ops.push(Op::Flush);
+            }
+        }
+        ops
+    });
+    (min_len, prologue, prop::collection::vec(op_strategy(big), 0..=max_ops))
+        .prop_map(|(min_len, mut pre, ops)| {
+            pre.extend(ops);
+            History { min_len, ops: pre }
+        })
         .boxed()
 }
 
